@@ -11,6 +11,8 @@
 #pragma once
 
 #include <algorithm>
+#include <execinfo.h>
+
 #include <atomic>
 #include <chrono>
 #include <csignal>
@@ -190,6 +192,13 @@ namespace vlog {
         std::fprintf(f, "{\"seq\":%llu,\"e\":\"crash\",\"why\":\"%s\",\"sig\":%d}\n",
             (unsigned long long) g_seq.fetch_add(1), why, sig);
         std::fflush(f);
+        if (std::getenv("VERIF_BACKTRACE"))
+        {
+            // diagnostic aid: raw backtrace on stderr (symbolise with addr2line / gdb)
+            void* bt[48];
+            int n = ::backtrace(bt, 48);
+            ::backtrace_symbols_fd(bt, n, 2);
+        }
         _exit(70);
     }
 
